@@ -18,7 +18,7 @@ pub struct C20;
 pub const CHECK: C20 = C20;
 pub fn plan(t: Tier) -> vcore::Plan {
     // a case costs 1-4 process runs (a few ms each); small chunks so that all workers share the work
-    let mut p = vcore::Plan::new(t.pick(4_000, 300_000), 160);
+    let mut p = vcore::Plan::new(t.pick(8_000, 300_000), 160);
     p.chunk = t.pick(100, 1000);
     // tape shrinking matters little here (few, independent choices; `simplify_at` does the rest) and costs process runs
     p.max_shrink_iters = 80;
